@@ -26,11 +26,13 @@
 //     goroutines, all released together: random Check / Validate (example
 //     document of the sequential run and mutations of it) / Len / Example /
 //     GetAST / UsedUserTypes mixes with random yields;
-//   - ORACLE: the same root over a FRESH forest in a sequential run (run twice,
-//     calls in opposite order: must agree, otherwise the root is left out);
+//   - ORACLE: the same root over a FRESH forest in a sequential run; a second
+//     sequential run (all roots over one copy of the forest, calls in the
+//     opposite order) must agree with it, otherwise the root is left out;
 //     all goroutines of one root must be handed the same AST object;
-//   - the rounds run one after another, each bracketed by racekit.Mark lines on
-//     stderr, so that a race report names the round it was printed in.
+//   - three rounds run at a time, each bracketed by racekit.Mark lines on
+//     stderr: a race report carries the rounds it was printed in, and the
+//     parent replays those alone (--round N) to name the one that produces it.
 //
 // allOf never occurs in this stream (K-C12-allof: a shared type object that
 // takes part in an allOf expansion is rewritten in place by every root's
